@@ -321,6 +321,46 @@ theorem every_region_analysed_counterexample :
   revert this
   decide
 
+/-! ### the duplicate-configuration purge (`TokenList::calculateHash`) -/
+
+/-- the hash separates the token lists of the file's configurations -/
+def HashInjOn (hash : List Nat → Nat) (content : Nat → List Nat) (t : Items) (cs : List Str) : Prop :=
+  ∀ c ∈ cs, ∀ c' ∈ cs, hash (tokensOf content t c) = hash (tokensOf content t c') → tokensOf content t c = tokensOf content t c'
+
+/-- if the hash is injective on the token lists of the file's configurations, the purge drops only configurations
+    whose token list is analysed anyway: every configuration has a checked one with the very same code -/
+theorem purge_keeps_code_partial (hash : List Nat → Nat) (content : Nat → List Nat) (t : Items) (cs : List Str)
+    (hinj : HashInjOn hash content t cs) :
+    ∀ c ∈ cs, ∃ c' ∈ checkedConfigs hash content t cs, tokensOf content t c' = tokensOf content t c := by
+  intro c hc
+  obtain ⟨c', hc', hk⟩ := dedupBy_key (fun c => hash (tokensOf content t c)) cs c hc
+  exact ⟨c', hc', hinj c' (dedupByGo_sub _ cs [] c' hc') c hc hk⟩
+
+/-- … hence every region that is live in some configuration is live in a checked one, when regions with different
+    labels have different code (`content r = [r]`: the planted findings of the check) -/
+theorem purge_keeps_coverage_partial (hash : List Nat → Nat) (t : Items) (cs : List Str)
+    (hinj : HashInjOn hash (fun r => [r]) t cs) (r : Nat) (h : ∃ c ∈ cs, live c t r = true) :
+    ∃ c ∈ checkedConfigs hash (fun r => [r]) t cs, live c t r = true := by
+  obtain ⟨c, hc, hl⟩ := h
+  obtain ⟨c', hc', he⟩ := purge_keeps_code_partial hash (fun r => [r]) t cs hinj c hc
+  refine ⟨c', hc', ?_⟩
+  have : t.emit (defines c') = t.emit (defines c) := by
+    simpa [tokensOf, List.flatMap_singleton'] using he
+  simpa [live, this] using hl
+
+/-- an order-insensitive hash (here: the sum of the tokens, like an XOR of per-token values) purges a configuration whose
+    code is a permutation of an earlier one: `#ifdef A R0 #else R1 #endif` with R0 = `1 2`, R1 = `2 1` — the configuration
+    `A=A` is dropped and R0's code is analysed in no configuration -/
+theorem purge_loses_region_counterexample :
+    let t : Items := .condElse .ifdef ['A'] (.region 0 .done) (.region 1 .done) .done
+    let content : Nat → List Nat := fun r => if r = 0 then [1, 2] else [2, 1]
+    let cs := getConfigs {} t.flatten
+    (∃ c ∈ cs, live c t 0 = true) ∧ ¬ ∃ c ∈ checkedConfigs List.sum content t cs, live c t 0 = true := by
+  decide
+
+example : HashInjOn (fun l => l.foldl (fun a x => 31 * a + x + 1) 7) (fun r => [r]) witnessF15 (getConfigs {} witnessF15.flatten) := by
+  unfold HashInjOn; decide
+
 /-- naming per convention: the main coverage theorem carries the excluding hypothesis `ndLeaf` -/
 theorem every_region_covered_ndLeaf_partial (inp : Inp) (t : Items) (hf : inFamily inp t = true) (hl : ndLeaf t = true) :
     ∀ r ∈ t.regions, ∃ c ∈ getConfigs inp t.flatten, live c t r = true :=
